@@ -679,11 +679,46 @@ func streamCrash(g *G) { // C05
 			g.emit("handle %d %s 1 %%- %s", 800000+g.n-1, encB(p), encL([]string{"GET"}))
 			g.emit("murl %s %s", encB(p), g.paramsFor(p+"{a}{b:x}"))
 			g.emit("url %d %s %s %s", rid, b2s(g.chance(0.5)), encB(p), g.paramsFor(p+"{a}"))
+			// whatever was accepted is also served (an odd pattern that registers must not fault at request time)
+			for k := 0; k < 2; k++ {
+				g.serveLine("serve", 800000+g.n-1, "GET", "/"+randFrom(g, "ab1/x.", g.intn(4)), "", nil)
+			}
 		}
+		g.parenFamily(850000 + g.n)
 		g.serveLine("serve", rid, "GET", strings.Repeat("/a", 3000), "", nil)
 		g.serveLine("serve", rid, g.pick(oddMethods), "*", "", nil)
 		g.serveLine("serve", rid, g.pick(oddMethods), "", "", nil)
 		rid++
+	}
+}
+
+func randFrom(g *G, alpha string, n int) string {
+	b := make([]byte, n)
+	for i := range b {
+		b[i] = alpha[g.intn(len(alpha))]
+	}
+	return string(b)
+}
+
+// parenFamily: regexp rules whose parentheses do not balance on their own. Go compiles the text "(?P<name>" + rule + ")" + suffix,
+// so a stray ")" closes the named group early: `a)|(b` used to compile, its named group did not take part in a match of "b"
+// and Segment.Match sliced with -1 (D35). Registered (capturing and ignoring form, with and without suffix) and served.
+var parenRules = []string{"a)|(b", "a)(b", ")(", "a)|(", "a)|(b)|(c", "(a)|(b)", "a|b", "(a", "a)", "a\\", "[a\\", "a)*(b", "(?:a)|(b"}
+
+func (g *G) parenFamily(rid int) {
+	g.routerLine(rid, routerOpt{name: "paren" + strconv.Itoa(rid)})
+	rule := g.pick(parenRules)
+	pre := g.pick([]string{"/", "/x", "/p/"})
+	pat := pre + "{" + g.pick([]string{"n", "-n"}) + ":" + rule + "}" + g.pick([]string{"", "", ".x", "/y"})
+	g.emit("syntax %s", encB(pat))
+	g.emit("handle %d %s 1 %%- %s", rid, encB(pat), encL([]string{"GET"}))
+	g.emit("routes %d", rid)
+	for _, v := range []string{"a", "b", "ab", "c", "", "ba", "(", ")"} {
+		for _, sfx := range []string{"", ".x", "/y"} {
+			if g.chance(0.5) {
+				g.serveLine("serve", rid, "GET", pre+v+sfx, "", nil)
+			}
+		}
 	}
 }
 
